@@ -55,7 +55,38 @@ let render_impl (s : sexp) : string =
       Buffer.contents b
   | _ -> failwith "compiled dump"
 
+(* ---- execution on the integer fragment (Model/ExecToy.v) ---- *)
+let fuel_cache : (int, nat) Hashtbl.t = Hashtbl.create 7
+let nat_of_int_tr (n : int) : nat =
+  match Hashtbl.find_opt fuel_cache n with
+  | Some f -> f
+  | None ->
+      let r = ref O in
+      for _ = 1 to n do r := S !r done;
+      Hashtbl.replace fuel_cache n !r; !r
+
+let zs sep l = String.concat sep (List.map string_of_z l)
+
+let render_state (k : string) (s : cst) : string =
+  if s.c_unmod then "unmod executed-outside-fragment"
+  else Printf.sprintf "%s status=%s out=%s" k (string_of_z s.c_exit) (String.concat ";" (List.rev_map (zs ",") s.c_out))
+
+let render_end = function
+  (* running off the end and `exit` are one outcome: the implementation does not tell them apart either *)
+  | TDone s -> render_state "end" s
+  | TExit s -> render_state "end" s
+  | TErr (e, s) -> if string_of_z e = "99" then "unmod inexact-division-or-power" else render_state ("err:" ^ string_of_z e) s
+  | TBad w -> "bad:" ^ string_of_z w
+
 let handle = function
+  | ["exec"; ast; fuel] ->
+      (try
+        let p = Conv.program (parse ast) in
+        if not (toy_fragment_ok p) then "unmod outside-fragment"
+        else
+          let f = nat_of_int_tr (int_of_string fuel) in
+          Printf.sprintf "ast=[%s] vm=[%s]" (render_end (toy_ast_run f p)) (render_end (toy_vm_run f p))
+       with Conv.Unsupported m -> "unmod " ^ m)
   | ["compile"; ast] ->
       (try render_model (encode_program (comp_program (Conv.program (parse ast))))
        with Conv.Unsupported m -> "unmod " ^ m)
